@@ -48,10 +48,11 @@ def initial_states(role: str) -> t.List[t.Tuple[str, t.Any, t.List[t.Any]]]:
 
 def send_events(role: str) -> t.List[sess.Event]:
     if role == "client":
-        return [("call", n, -1) for n in sess.CLIENT_CALLS]
+        return [("call", n, -1) for n in sess.CLIENT_CALLS] + [("callbad", n, -1) for n in sess.CLIENT_BAD]
     ev: t.List[sess.Event] = [("call", "unbind", -1)]
     for i in (1, 2, 3):
         ev += [("call", n, i) for n in sess.SERVER_CALLS]
+    ev += [("callbad", n, 1) for n in sess.SERVER_BAD]  # a send that fails while encoding contributes nothing
     return ev
 
 
@@ -136,7 +137,7 @@ def explore(role: str, max_sends: int) -> t.Dict[str, t.Any]:
                     rest = copy.deepcopy(s2).data_to_send()
                     exp_rest = g2[0][g2[1] :]
                     if rest != exp_rest:
-                        why = "refused" if ev[0] == "call" and exc is not None else "accepted" if ev[0] == "call" else "drain"
+                        why = "refused" if ev[0] in ("call", "callbad") and exc is not None else "accepted" if ev[0] in ("call", "callbad") else "drain"
                         flag(f"pending-differs-after:{ev[0]}:{ev[1]}:{why}", f"after {ev} the session holds {rest.hex()[:50]} ({len(rest)} bytes); accepted sends minus drained bytes = {exp_rest.hex()[:50]} ({len(exp_rest)} bytes)", h2)
                         bad = True
                     if bad:
@@ -177,7 +178,7 @@ def replay_case(case: t.Dict[str, t.Any]) -> t.Tuple[bool, str]:
             enc = probe.data_to_send()
             try:
                 sess.apply_event(role, s, ev)
-                if ev[0] == "call":
+                if ev[0] in ("call", "callbad"):
                     stream += enc
                 lines.append(f"  {ev} accepted")
             except BaseException as e:  # noqa: BLE001
